@@ -2,7 +2,7 @@
    Proofs/SettingsValue.v transferred to the reference-heap model (the one Model/C19Run.v evaluates
    on the real library's observations) by the refinement theorem of Proofs/SettingsSim.v. *)
 From Coq Require Import List Arith Bool Lia String.
-From ReqV Require Import Model.Settings Model.LiveSel Gen.CloneTable Proofs.SettingsHeap Proofs.SettingsValue Proofs.SettingsSim.
+From ReqV Require Import Model.Settings Model.LiveSel Model.Handshake Gen.CloneTable Proofs.SettingsHeap Proofs.SettingsValue Proofs.SettingsSim.
 Import ListNotations.
 
 Lemma gen_tbl_deep : gen_tbl = deep_tbl.
@@ -172,3 +172,31 @@ Proof. intros cached. split; reflexivity. Qed.
 (* without the guard a client that talked HTTP/2 before EnableForceHTTP1 keeps using the cached connection *)
 Lemma unguarded_refuted : live_sel {| g_h1guard := false |} 1 true = Some 2.
 Proof. reflexivity. Qed.
+
+(* ---------- the TLS handshake option: setter order x Clone ---------- *)
+(* the hook is there exactly when the transport handshakes with a fingerprint (and names that fingerprint) *)
+Definition hs_inv (s : hstate) : Prop :=
+  match hs_fn s with HFinger id => hs_hook s = Some id | _ => hs_hook s = None end.
+
+Lemma hs_inv_apply s o : hs_inv (happly good_hs s o).
+Proof. destruct o; reflexivity. Qed.
+
+Lemma hs_inv_run ops : forall s, hs_inv s -> hs_inv (fold_left (happly good_hs) ops s).
+Proof. induction ops as [|o ops IH]; intros s I; simpl; auto. apply IH, hs_inv_apply. Qed.
+
+(* for every order of fingerprint / custom handshake setters: the clone handshakes with what the original
+   handshakes with (same kind, same function or same fingerprint), and has the invariant again *)
+Lemma clone_keeps_handshake ops :
+  let s := fold_left (happly good_hs) ops hstate0 in
+  hs_fn (hclone good_hs s) = hs_fn s /\ hs_inv (hclone good_hs s).
+Proof.
+  intros s. assert (I : hs_inv s) by (apply hs_inv_run; reflexivity).
+  unfold hs_inv in I. unfold hclone. destruct (hs_fn s) eqn:E; rewrite I; simpl; rewrite ?E; split; auto; unfold hs_inv; simpl; rewrite ?E; auto.
+Qed.
+
+(* SetTLSHandshake not clearing the hook (seeded d-m2): fingerprint, then a custom handshake, then Clone *)
+Lemma stale_hook_refuted :
+  let t := {| h_custom_clears_hook := false; h_finger_sets_hook := true; h_clone_runs_hook := true |} in
+  let s := fold_left (happly t) [HSetFinger 1; HSetCustom 7] hstate0 in
+  hs_fn s = HCustom 7 /\ hs_fn (hclone t s) = HFinger 1.
+Proof. split; reflexivity. Qed.
